@@ -236,6 +236,36 @@ def tree_cases(run, rng, k):
                             offs = np.cumsum([0] + [truth['slabs'][s]['H'] for s in slabs])
                             masks = [m[offs[j] : offs[j + 1]] for j in range(len(slabs))]
                             catoracle.check_subsamples(run, got, truth, slabs, cleaned, AB, masks=masks, desc=dict(desc, check='filter'), key_prefix='filter-subsample')
+                # filters that look at what a user looks at: a position / radius in the units of the load, and the header carried as the
+                # table's meta -- the rows kept are those the same function selects on the unfiltered load
+                userf = []
+                for cn in ('x_L2com', 'x_com'):
+                    if cn in full.halos.colnames and len(full.halos):
+                        tx = float(np.median(np.asarray(full.halos[cn])[:, 0]))
+                        userf.append((f'{cn}[:,0] > {tx!r}', lambda h, cn=cn, tx=tx: np.asarray(h[cn])[:, 0] > tx))
+                        break
+                for cn in ('r100_L2com', 'r100_com'):
+                    if cn in full.halos.colnames and len(full.halos):
+                        userf.append((f"{cn} > 0.6 * max * BoxSize-from-meta ratio", lambda h, cn=cn, t=0.6 * float(np.max(np.asarray(full.halos[cn]))) / float(full.halos.meta['BoxSize']): np.asarray(h[cn]) > t * h.meta['BoxSize']))
+                        break
+                if 'N' in full.halos.colnames and len(full.halos):
+                    userf.append(("N * meta['ParticleMassHMsun'] >= median", lambda h, t=float(np.median(np.asarray(full.halos['N']))) * float(full.halos.meta.get('ParticleMassHMsun', 1.0)): np.asarray(h['N']) * h.meta.get('ParticleMassHMsun', 1.0) >= t))
+                for label, uf in userf:
+                    run.ev()
+                    run.count('loads')
+                    run.count('user_style_filters')
+                    desc = dict(desc0, mask=label)
+                    got, err = catoracle.load(path, filter_func=uf, **base_kw)
+                    if err is not None:
+                        run.violation('filter-load-fails-' + type(err).__name__, dict(error=f'{type(err).__name__}: {err}'[:300], **desc))
+                        continue
+                    m = np.asarray(uf(full.halos), dtype=bool)
+                    ref = {cn: v[m] for cn, v in full_rows.items()}
+                    if len(got.halos) != int(m.sum()):
+                        run.violation('filter-row-count', dict(rows=len(got.halos), expected=int(m.sum()), **desc))
+                    elif not compare_halos(run, got.halos, ref, dict(desc, check='filter'), 'filter-rows-differ') and AB:
+                        offs = np.cumsum([0] + [truth['slabs'][s]['H'] for s in slabs])
+                        catoracle.check_subsamples(run, got, truth, slabs, cleaned, AB, masks=[m[offs[j] : offs[j + 1]] for j in range(len(slabs))], desc=dict(desc, check='filter'), key_prefix='filter-subsample')
                 if run.too_many():
                     return
         # the catalogue named by a path relative to the working directory (from inside the simulation directory, and from
